@@ -1062,6 +1062,19 @@ func (fx *Fx) unop(st *State, x *ssa.UnOp) {
 			fx.set(st, x, Val{L: []*Term{UF(tableName(g), leafKinds(t)[0].Sort(), a.Off())}})
 			return
 		}
+		if g := fx.P.errVarOf(a.Obj()); g != nil && a.Off().Op == "const" && a.Off().V.Sign() == 0 && isErrorIface(t) {
+			// a package-level error variable that is set once, in init, to a non-nil value
+			n := len(leafKinds(t))
+			v := Val{T: t}
+			for i := 0; i < n; i++ {
+				v.L = append(v.L, Sym(fmt.Sprintf("errvar!%s.%d", tableName(g), i), leafKinds(t)[i].Sort()))
+			}
+			fx.assumeTypeInv(st, v)
+			fx.assume(st, Not(Eq(v.L[0], IntConst(0))))
+			fx.Trusted["error variable "+tableName(g)+" keeps its initial non-nil value"] = true
+			fx.set(st, x, v)
+			return
+		}
 		v := st.Load(t, a.Obj(), a.Off())
 		if !fx.resolved(v) {
 			fx.assumeTypeInv(st, v)
